@@ -21,6 +21,13 @@ func main() {
 		probeComplete(dir, l, c)
 		return
 	}
+	if len(os.Args) > 4 && os.Args[2] == "rename" {
+		var l, c int
+		fmt.Sscanf(os.Args[3], "%d", &l)
+		fmt.Sscanf(os.Args[4], "%d", &c)
+		probeRename(dir, l, c)
+		return
+	}
 	if len(os.Args) > 2 && os.Args[2] == "hover" {
 		probeHover(dir, os.Args[3:])
 		return
